@@ -74,16 +74,8 @@ func runC26(c *Ctx) {
 				c.check(!by, "C26.add-every-item", "every non-nil indexed value is added (empty values included)", ic.Pos(), "skip only for b == nil", "an indexed value that is not nil can be skipped ("+traceString(tr)+")")
 				// the loop covers the whole log: range over $1 starting at 0
 				okRange := false
-				for _, in := range h.Instrs {
-					if phi, ok := in.(*ssa.Phi); ok {
-						if _, ok := counterIncrements(phi, func(v ssa.Value) bool { k, ok := constInt(v); return ok && k == -1 }); ok {
-							if iff, ok := h.Instrs[len(h.Instrs)-1].(*ssa.If); ok {
-								if cmp, ok := iff.Cond.(*ssa.BinOp); ok && cmp.Op == token.LSS && rn(cmp.Y) == "len($1)" {
-									okRange = true
-								}
-							}
-						}
-					}
+				if _, lb, ok := indexLoop(h); ok && rn(lb) == "len($1)" {
+					okRange = true
 				}
 				c.check(okRange, "C26.add-every-item", "the loop ranges over the whole log", h.Instrs[0].Pos(), "for i := range log", "loop bounds differ")
 				tr2, reach := pathAvoidingEdges(al, nil, isReturn, func(in ssa.Instruction) bool { return in == h.Instrs[0] }, wEQ("no log", 0, t(1, `^len\(\$1\)$`)))
@@ -175,17 +167,9 @@ func runC26(c *Ctx) {
 			h := loopHeaderOf(ab.Instr.Block())
 			okLoop := false
 			if h != nil {
-				for _, in := range h.Instrs {
-					if phi, ok := in.(*ssa.Phi); ok {
-						if _, ok := counterIncrements(phi, isZeroConst); ok {
-							if iff, ok := h.Instrs[len(h.Instrs)-1].(*ssa.If); ok {
-								if cmp, ok := iff.Cond.(*ssa.BinOp); ok && cmp.Op == token.LSS && cmp.X == ssa.Value(phi) {
-									if k, ok := constInt(cmp.Y); ok && k == 3 {
-										okLoop = true
-									}
-								}
-							}
-						}
+				if _, lb, ok := indexLoop(h); ok {
+					if k, isK := constInt(lb); isK && k == 3 {
+						okLoop = true
 					}
 				}
 				tr, by := loopBypass(fn, h, ab.Instr)
